@@ -126,3 +126,17 @@ package scheduler
 //@   requires n != nil && rt != nil && n.node != nil
 //@   ensures-local result ==> defined(nrt) && defined(activeDeployment) && activeDeployment != nil && nrt.Version.Major == activeDeployment.Version.Major && nrt.Version.Minor == activeDeployment.Version.Minor && nrt.Version.Patch == activeDeployment.Version.Patch
 //@   note a node is suitable for a runtime's executor committee only through an entry of its runtime list whose version equals the version of the deployment that is ACTIVE at the election epoch - not merely a version the runtime descriptor lists (a superseded or not yet active deployment; seed C14_h)
+
+// ---- validator shuffle (C10): the VRF path is taken only with enough proofs FROM THE VALIDATOR CANDIDATES ----
+
+//@ import beacon "github.com/oasisprotocol/oasis-core/go/beacon/api"
+//@ ghost func HasPi(vrf *beacon.PrevVRFState, nodes []*node.Node, j int) bool { return vrf.Pi[nodes[j].ID] != nil }
+//@ ghost func NWithPi(vrf *beacon.PrevVRFState, nodes []*node.Node, n int) int { return count(0, n, func(j int) bool { return HasPi(vrf, nodes, j) }) }
+
+//@ func shuffleValidators
+//@   props C10 C14
+//@   bodyonly
+//@   requires schedulerParameters != nil && beaconParameters != nil && vrf != nil && (forall j int :: 0 <= j && j < len(nodes) ==> nodes[j] != nil)
+//@   loop 1 invariant numValidatorsWithPi == NWithPi(vrf, nodes, idx())
+//@   precall scheduler\.sortNodesByHashedBeta$ :: numValidatorsWithPi == NWithPi(vrf, nodes, len(nodes)) && numValidatorsWithPi >= schedulerParameters.MinValidators
+//@   note the VRF-based sort keeps only candidates that submitted a proof, so it is used only when the number of CANDIDATE VALIDATORS with a proof (counted over the candidate list, not over all proofs of the epoch) reaches the minimum validator-set size; otherwise the entropy fallback orders all candidates. An election left with fewer than MinValidators returns an error from BeginBlock, which stops the chain (seed C10_j counted every proof of the epoch, compute nodes' included)
